@@ -6,6 +6,10 @@
 (*        was started inside test t through api (t = "": before the first    *)
 (*        test, while the test module was imported; ign: the name it is seen *)
 (*        under matches an ignore pattern in match mode - environment fact), *)
+(*        hook = TRUE: the thread was started by a per-test layer hook       *)
+(*        (testSetUp) after test t was over (t = "": before the first test)  *)
+(*        and before the next test began - it exists before every later test *)
+(*        and belongs to no test,                                            *)
 (*        {e:"N", t, th, ident, ign} it is seen under another name from now  *)
 (*        on (a low-level thread became known to threading, or a rename),    *)
 (*        {e:"E", t, th, ident} it was seen to have ended inside test t,     *)
@@ -37,11 +41,15 @@ IgnAtEnd(r, th, n) ==
                                   /\ Idx(r, r.ev[j].t) <= n}
   IN r.ev[CHOOSE j \in J : \A i \in J : i <= j].ign
 
+(* started during test n / before test n began (a hook start logged with    *)
+(* test t happened after t was over)                                         *)
+Own(r, j, n) == Idx(r, r.ev[j].t) = n /\ ~r.ev[j].hook
+Before(r, j, n) == Idx(r, r.ev[j].t) < n
 (* threads running when test n starts / stops *)
-AliveAtStart(r, n) == {j \in Starts(r) : Idx(r, r.ev[j].t) < n /\ ~EndedBefore(r, r.ev[j].th, n)}
-AliveAtStop(r, n) == {j \in Starts(r) : Idx(r, r.ev[j].t) <= n /\ ~EndedBy(r, r.ev[j].th, n)}
+AliveAtStart(r, n) == {j \in Starts(r) : Before(r, j, n) /\ ~EndedBefore(r, r.ev[j].th, n)}
+AliveAtStop(r, n) == {j \in Starts(r) : (Before(r, j, n) \/ Own(r, j, n)) /\ ~EndedBy(r, r.ev[j].th, n)}
 
-Leaked(r, n) == {j \in Starts(r) : Idx(r, r.ev[j].t) = n /\ ~EndedBy(r, r.ev[j].th, n)}
+Leaked(r, n) == {j \in Starts(r) : Own(r, j, n) /\ ~EndedBy(r, r.ev[j].th, n)}
 Expected(r, n) == {j \in Leaked(r, n) : ~r.ev[j].ign /\ ~IgnAtEnd(r, r.ev[j].th, n)}
 DontCare(r, n) == {j \in Leaked(r, n) : r.ev[j].ign # IgnAtEnd(r, r.ev[j].th, n)}
 (* snapshot entries still taken for alive at the stop: a threading.Thread    *)
@@ -67,9 +75,12 @@ TestVerdict(r, n) ==
      ELSE IF rp = Id(r, OldISpec(r, n))
           THEN "C19:missed|ident-reused-from-an-ended-threading-thread"
      ELSE IF exp \ rp # {} THEN "C19:missed"
-     ELSE IF \E j \in Starts(r) : r.ev[j].ident \in extra /\ Idx(r, r.ev[j].t) = n
+     ELSE IF \E j \in Starts(r) : r.ev[j].ident \in extra /\ Own(r, j, n)
                                    /\ IgnAtEnd(r, r.ev[j].th, n)
           THEN "C19:spurious|ignored-thread"
+     ELSE IF \E j \in Starts(r) : r.ev[j].ident \in extra /\ Before(r, j, n) /\ r.ev[j].hook
+                                   /\ ~EndedBy(r, r.ev[j].th, n)
+          THEN "C19:wrong-test|started-by-a-per-test-layer-hook-before-the-test"
      ELSE IF \E j \in Starts(r) : r.ev[j].ident \in extra /\ Idx(r, r.ev[j].t) < n
           THEN IF \E j \in Starts(r) : r.ev[j].ident \in extra /\ Idx(r, r.ev[j].t) = 0
                THEN "C19:wrong-test|existed-before-the-first-test"
